@@ -66,6 +66,78 @@ def check(model: Model, run: Run) -> None:
         run.fail(Finding(rule, ident[1], key, msg, f"{model.relpath(fi.module)}:{line}" if fi else ""))
     from ..tlvcheck import nonconstant_tags
     nonconstant_tags(ex, run, "B11-writer-tags-are-constants")
+    enumerated_values(model, ex, run)
+
+
+# RFC 4511 section 4.1.9 (resultCode), 4.5.1 (scope, derefAliases): the named numbers of each ENUMERATED type, under the
+# library's public member names.  A member the table does not know gets no verdict (it is counted), a known member with
+# another number is what a peer would read as a different named value.
+RFC_ENUMERATED = {
+    "resultCode": {"SUCCESS": 0, "OPERATIONS_ERROR": 1, "PROTOCOL_ERROR": 2, "TIME_LIMIT_EXCEEDED": 3, "SIZE_LIMIT_EXCEEDED": 4, "COMPARE_FALSE": 5,
+                   "COMPARE_TRUE": 6, "AUTH_METHOD_NOT_SUPPORTED": 7, "STRONG_AUTH_REQUIRED": 8, "STRONGER_AUTH_REQUIRED": 8, "REFERRAL": 10,
+                   "ADMIN_LIMIT_EXCEEDED": 11, "UNAVAILABLE_CRITICAL_EXTENSION": 12, "CONFIDENTIALITY_REQUIRED": 13, "SASL_BIND_IN_PROGRESS": 14,
+                   "NO_SUCH_ATTRIBUTE": 16, "UNDEFINED_ATTRIBUTE_TYPE": 17, "INAPPROPRIATE_MATCHING": 18, "CONSTRAINT_VIOLATION": 19,
+                   "ATTRIBUTE_OR_VALUE_EXISTS": 20, "INVALID_ATTRIBUTE_SYNTAX": 21, "NO_SUCH_OBJECT": 32, "ALIAS_PROBLEM": 33, "INVALID_DN_SYNTAX": 34,
+                   "ALIAS_DEREFERENCING_PROBLEM": 36, "INAPPROPRIATE_AUTHENTICATION": 48, "INVALID_CREDENTIALS": 49, "INSUFFICIENT_ACCESS_RIGHTS": 50,
+                   "BUSY": 51, "UNAVAILABLE": 52, "UNWILLING_TO_PERFORM": 53, "LOOP_DETECT": 54, "NAMING_VIOLATION": 64, "OBJECT_CLASS_VIOLATION": 65,
+                   "NOT_ALLOWED_ON_NON_LEAF": 66, "NOT_ALLOWED_ON_RDN": 67, "ENTRY_ALREADY_EXISTS": 68, "OBJECT_CLASS_MODS_PROHIBITED": 69,
+                   "AFFECTS_MULTIPLE_DSAS": 71, "OTHER": 80},
+    "scope": {"BASE": 0, "BASE_OBJECT": 0, "ONE_LEVEL": 1, "SINGLE_LEVEL": 1, "SUBTREE": 2, "WHOLE_SUBTREE": 2},
+    "derefAliases": {"NEVER": 0, "NEVER_DEREF_ALIASES": 0, "IN_SEARCHING": 1, "DEREF_IN_SEARCHING": 1, "FINDING_BASE_OBJ": 2,
+                     "DEREF_FINDING_BASE_OBJ": 2, "ALWAYS": 3, "DEREF_ALWAYS": 3},
+}
+
+
+def enumerated_values(model: Model, ex, run: Run) -> None:
+    """B12: the IntEnum classes that message fields are declared with carry the RFC's numbers"""
+    from ..fold import Folder
+    enums = set()
+    seen = set()
+    todo = list(ex.msg_classes)
+    while todo:
+        c = todo.pop()
+        if c in seen or c not in model.classes:
+            continue
+        seen.add(c)
+        for f in model.dataclass_fields(c):
+            for n in ast.walk(f.annotation) if f.annotation is not None else []:
+                if isinstance(n, (ast.Name, ast.Attribute)):
+                    q = model.resolve_name(model.classes[c].module, norm(n))
+                    if q in model.classes:
+                        k = model.classes[q]
+                        if k.is_enum:
+                            enums.add(q)
+                        elif k.is_dataclass:
+                            todo.append(q)
+    matched = 0
+    tables = 0
+    for q in sorted(enums):
+        k = model.classes[q]
+        vals = {}
+        for name, e in k.consts.items():
+            try:
+                v = Folder(model).fold(e, k.module)
+            except Exception:
+                continue
+            if isinstance(v, int) and not isinstance(v, bool):
+                vals[name] = v
+        best = max(RFC_ENUMERATED, key=lambda t_: len(set(RFC_ENUMERATED[t_]) & set(vals)))
+        table = RFC_ENUMERATED[best]
+        common = sorted(set(table) & set(vals))
+        if len(common) < 2:
+            continue
+        tables += 1
+        for name in common:
+            matched += 1
+            ok = vals[name] == table[name]
+            run.ob("B12-enumerated-numbers", ok)
+            if not ok:
+                run.fail(Finding("B12-enumerated-numbers", q, f"{name}={vals[name]}",
+                                 f"{short(q)}.{name} is {vals[name]}; RFC 4511 {best} gives that named value the number {table[name]}",
+                                 f"{model.relpath(k.module)}:{k.consts[name].lineno}"))
+    run.floor("ENUMERATED types compared with the RFC's named numbers", tables, 3)
+    run.floor("ENUMERATED members compared", matched, 40)
+    run.coverage["enumerated_members"] = matched
 
 
 def walk(w):
